@@ -1,0 +1,19 @@
+// Copyright © 2022-2026 Obol Labs Inc. Licensed under the terms of a Business Source License 1.1
+
+//go:build verif
+
+// Verification contracts (comments only; read by /verif/govc, never compiled into charon).
+package forkjoin
+
+//@ pure context.Context.Err
+
+// The worker: every input taken from the queue is either executed with the shared work context or, if that
+// context is already done, reported with the context's error; the shared context is cancelled by a worker ONLY
+// in fail-fast mode after a work error (so without fail-fast one member's failure never cancels the others),
+// and exactly one result is enqueued per input.
+//@ func New$3
+//@ props C19
+//@ callreq cancelWorkers: options.failFast && err != nil
+//@ callreq work: a1 == workCtx && a2 == in && workCtx.Err() == nil
+//@ callreq enqueue: a1 == in
+//@ loop 1 invariant ncalls(enqueue) == $i
